@@ -24,7 +24,9 @@
 (*   S n simple statements (calls; variants strdelim: string/char literals *)
 (*     containing braces, parentheses and comment leaders; trailing: a     *)
 (*     trailing comment on the line; inline: a block comment between the   *)
-(*     tokens of the line)                                                 *)
+(*     tokens of the line; mlstr: each statement is ONE string literal     *)
+(*     over three physical lines - one token, so one counted line, and the *)
+(*     function's last token when it is the last statement of a suite)     *)
 (*   M multi-line statement (initialiser with a brace group, 3 lines)      *)
 (*   B blank line   R comment-only line                                    *)
 (* Finish computes the ghost exp: for every layout family and every        *)
@@ -108,7 +110,7 @@ Funcs == { i \in 1..Len(prog) : prog[i].k = "F" }
 Encl(p) == LET c == { i \in Funcs : i < p /\ p <= CloseOf(i) } IN
            IF c = {} THEN 0 ELSE CHOOSE i \in c : \A j \in c : j <= i
 Owner(p) == IF prog[p].k = "F" THEN p ELSE Encl(p)
-Lines(fam, it) == CASE it.k = "S" -> it.n
+Lines(fam, it) == CASE it.k = "S" -> (IF it.v = "mlstr" THEN 3 * it.n ELSE it.n)   \* physical lines
                     [] it.k = "M" -> 3
                     [] it.k = "F" -> (IF it.v = "tailwrap" THEN 3 ELSE IF it.v \in {"multi", "lineabove"} \/ (it.v = "nextbrace" /\ fam # "indent") THEN 2 ELSE 1)
                     [] it.k = "X" -> (IF fam = "indent" THEN 0 ELSE 1)
@@ -121,7 +123,9 @@ SumLines(fam, a, b) == IF a > b THEN 0 ELSE Lines(fam, prog[a]) + SumLines(fam, 
 FirstLine(fam, p) == 1 + SumLines(fam, 1, p - 1) + Offset(prog[p])
 LastLine(fam, p) == SumLines(fam, 1, p)
 RECURSIVE SumSet(_, _)
-SumSet(fam, S) == IF S = {} THEN 0 ELSE LET x == CHOOSE x \in S : TRUE IN Lines(fam, prog[x]) + SumSet(fam, S \ {x})
+(* lines on which a token BEGINS: a statement that is one string literal over three physical lines counts once *)
+Counted(fam, it) == IF it.k = "S" /\ it.v = "mlstr" THEN it.n ELSE Lines(fam, it)
+SumSet(fam, S) == IF S = {} THEN 0 ELSE LET x == CHOOSE x \in S : TRUE IN Counted(fam, prog[x]) + SumSet(fam, S \ {x})
 (* does the header of function p carry tokens of the enclosing scope in front of it? *)
 HasPrefix(fam, p) == (fam = "bracep" /\ prog[p].v # "arrow") \/ prog[p].v = "prefix"
 (* lines of a directly nested function on which a token of the ENCLOSING function begins: the header line when *)
